@@ -707,6 +707,12 @@ func (g *c17CGen) config() string {
 }
 
 var c17FixedConfigs = []string{
+	// near misses of section names and of "include" (which alone is skipped by the unknown-section test)
+	"global{} routing{} include2{}", "global{} routing{} includes{ a }", "global{} routing{} include_optional{ 'a.dae' }", "global{} routing{} Include{}", "global{} routing{} includ{}",
+	"global{} routing{} include{ 'a.dae' }", "global{} routing{} Global{}", "global{} routing{} globals{}", "global{} routing{} dns2{}", "global{} routing{} DNS{}", "global{} routing{} node2{ a }",
+	"global{ Log_level: info } routing{}", "global{ log_levels: info } routing{}", "global{ log_leve: info } routing{}", "global{} routing{ Fallback: direct }", "global{} routing{} dns{ Upstream{ } }",
+	"global{ log_level: info [x: y] } routing{}", "global{ lan_interface: f(x) } routing{}", "global{} routing{ fallback { x } }", "global{} routing{} group{ g { policy: min filter { name(x) } } }",
+	"global{} routing{} node{ n: f(a, b, c, d, e, f) }", "global{} routing{} node{ n: f(a, b, c, d, e) && !g(k: v) }",
 	"", "global{}", "routing{}", "global{} routing{}", "global{} routing{} dns{}", "global{} routing{} dns{ routing{} }",
 	"global{} routing{} dns{ routing{ request{} } }", "global{} routing{ fallback: must_direct }", "global{} routing{ fallback: f(x) && g(y) }",
 	"global{} routing{ fallback: my(mark: 1) }", "global{} routing{ a(b) -> must_proxy  a(b) -> must_rules }", "global{ bootstrap_resolver: 'x' } routing{}",
